@@ -346,6 +346,7 @@ func runScenario(sc scenario) string {
 	s := &server{sc: sc, booted: make(chan struct{}), opened: map[string]int{}, closed: map[string]int{}, loopOf: map[string]int64{},
 		remote: map[string]string{}, inCB: map[int64]int32{}}
 	base, baseTab := countFds(), fdTable()
+	hoStart()
 	// C19: a handle that was never started
 	probeEngine(s.log, "never", gnet.Engine{})
 	sockSeq++
@@ -556,11 +557,15 @@ func runScenario(sc scenario) string {
 	}
 	// ---- oracles
 	// C07: descriptors the engine created are closed and the Unix-socket file is removed when Run returns
+	ho := ""
 	if !hammer && base > 0 && sc.source != "regrace" {
 		var now int
 		if !settle(2*time.Second, func() bool { now = countFds(); return now <= base }) {
 			util.Fail(fmt.Sprintf("C07: %d descriptors are open after Run returned and all peers closed, %d before the engine started (%s): leaked %s", now, base, sc.source, newFds(baseTab)))
 		}
+		ho = hoReport(strings.Count(newFds(baseTab), "socket(connected"))
+	} else {
+		hoReport(0)
 	}
 	if sockPath != "" {
 		if _, err := os.Stat(sockPath); err == nil {
@@ -615,7 +620,7 @@ func runScenario(sc scenario) string {
 		}
 	}
 	_ = elapsed
-	return fmt.Sprintf("result=ok stop=%s | %s", stopRes, strings.Join(parts, " "))
+	return fmt.Sprintf("result=ok stop=%s | %s%s", stopRes, strings.Join(parts, " "), ho)
 }
 
 func step(ws []string) string {
@@ -635,12 +640,22 @@ func main() {
 	mode := flag.String("mode", "exec", "gen|exec")
 	seed := flag.Int64("seed", 1, "PRNG seed")
 	cases := flag.Int("cases", 40, "number of engine lives")
+	only := flag.String("only", "", "generate only client lives of this mode (e.g. zone)")
 	flag.Parse()
 	switch *mode {
 	case "gen":
 		r := util.NewRng(*seed)
 		var b strings.Builder
 		hist := map[string]int{}
+		if *only != "" {
+			for i := 0; i < *cases; i++ {
+				hist["client-"+*only]++
+				fmt.Fprintf(&b, "case %d\nclife tcp %d %d %d %s %d\n", i, r.Pick(1, 2, 4), r.Intn(2), r.Pick(2, 3, 5), *only, r.Intn(2))
+			}
+			os.Stdout.WriteString(b.String())
+			fmt.Fprintf(os.Stderr, "DIST %v\n", hist)
+			return
+		}
 		sources := []string{"engstop", "pkgstop", "open", "traffic", "close", "tick", "boot", "ctxexpired", "twice", "regrace", "slowclose", "closetraffic"}
 		for i := 0; i < *cases; i++ {
 			src := sources[i%len(sources)]
@@ -656,12 +671,16 @@ func main() {
 			fmt.Fprintf(&b, "case %d\nlife %s %d %d %d %d %s %d %d\n", i, []string{"unix", "tcp"}[r.Intn(2)], r.Pick(1, 2, 4), r.Intn(2), ticker, nconn, src, r.Intn(2), r.Intn(3))
 		}
 		// client lives
-		modes := []string{"stop", "peerclose", "localclose", "wake"}
+		modes := []string{"stop", "peerclose", "localclose", "wake", "zone"}
 		for i := 0; i < *cases/2; i++ {
 			m := modes[i%len(modes)]
 			proto := []string{"tcp", "unix", "udp"}[r.Intn(3)]
 			hist["client-"+m]++
-			fmt.Fprintf(&b, "case %d\nclife %s %d %d %d %s %d\n", *cases+i, proto, r.Pick(1, 2, 4), r.Intn(2), r.Pick(0, 1, 2, 3, 5), m, r.Intn(2))
+			nconn := r.Pick(0, 1, 2, 3, 5)
+			if m == "zone" {
+				proto, nconn = "tcp", r.Pick(2, 3)
+			}
+			fmt.Fprintf(&b, "case %d\nclife %s %d %d %d %s %d\n", *cases+i, proto, r.Pick(1, 2, 4), r.Intn(2), nconn, m, r.Intn(2))
 		}
 		os.Stdout.WriteString(b.String())
 		fmt.Fprintf(os.Stderr, "DIST %v\n", hist)
